@@ -4,6 +4,7 @@ namespace BiotiteModel.Gen.C15
 open BiotiteModel.C15
 /-- constants and loop ranges as they are written in the source -/
 def consts : Consts where
+  boxPrecedence := .explicitFirst
   half := ((1 : Rat) / 2)
   halfStrict := true
   halfSub := ((1 : Rat) / 1)
